@@ -238,8 +238,8 @@ theorem integer_only_levels (c : Option JVal) (d p : PowerLevels) (h : parseInte
     and `users` / `events` / `notifications`, when present, are objects all of whose values are such literals. -/
 theorem integer_only_levels_spelled (kvs : List (Bytes × JVal)) (d p : PowerLevels)
     (h : parseIntegerPowerLevels (some (.obj kvs)) d = some p) :
-    (∀ k ∈ AuthRules.namedLevelKeys, ∀ v, lookupField kvs k = some v → ∃ lit n, v = .num lit ∧ parseInt64 lit = some n) ∧
-    (∀ k ∈ [b!"users", b!"events", b!"notifications"], ∀ v, lookupField kvs k = some v →
+    (∀ k ∈ AuthRules.namedLevelKeys, ∀ v, lookupExact kvs k = some v → ∃ lit n, v = .num lit ∧ parseInt64 lit = some n) ∧
+    (∀ k ∈ [b!"users", b!"events", b!"notifications"], ∀ v, lookupExact kvs k = some v →
       ∃ m, v = .obj m ∧ ∀ kv ∈ m, ∃ lit n, kv.2 = .num lit ∧ parseInt64 lit = some n) := by
   have hi := integer_only_levels _ d p h
   unfold AuthRules.integerContent AuthRules.contentFields at hi
